@@ -389,7 +389,7 @@ func c25GenInst(rt *rapid.T, roms []string) sysCase {
 	if len(roms) > 0 && rapid.IntRange(0, 3).Draw(rt, "kind") == 0 {
 		cas.File = rapid.SampledFrom(roms).Draw(rt, "rom")
 	} else {
-		s := c11Spec{CartType: rapid.SampledFrom(c26CartTypes).Draw(rt, "type"), RomSize: uint8(rapid.IntRange(0, 1).Draw(rt, "romsize")), RamSize: uint8(rapid.IntRange(0, 3).Draw(rt, "ram")), Len: -1, Far: true}
+		s := c11Spec{CartType: rapid.SampledFrom(c26CartTypes).Draw(rt, "type"), RomSize: uint8(rapid.IntRange(0, 1).Draw(rt, "romsize")), RamSize: rapid.SampledFrom([]uint8{0, 0, 0, 1, 2, 3}).Draw(rt, "ram"), Len: -1, Far: true}
 		s.Program = c11GenProgram(rt)
 		s.Head = make([]byte, 0x68)
 		for v := 0x40; v <= 0x60; v += 8 {
